@@ -86,6 +86,12 @@ def _bind_of(call):
             held.append("strong")
         elif s.get("kind") == "CXXThisExpr":
             held.append("this")
+        elif "weak_ptr<void>" in q:
+            held.append("token")
+        elif s.get("kind") == "DeclRefExpr" and q.replace("muduo::net::", "") in ("TcpServer *",):
+            held.append("serverptr")
+        elif _member_of_this(s, "loop_"):
+            held.append("loop_")
         elif "weak_ptr" in q or any(x.get("kind") == "DeclRefExpr" and x.get("referencedDecl", {}).get("name") == "makeWeakCallback" for x in walk(s)):
             held.append("weak")
         elif s.get("kind") == "CallExpr" and mentions(s, "get_pointer"):
@@ -256,13 +262,24 @@ def generate():
     i_ins = _index_of(st, is_insert, "newConnection: `connections_[connName] = conn`")
     out.append("/-- `newConnection`: `connections_[connName] = conn` (an existing entry with that key is overwritten) -/\n"
                "def insertOverwrites : Bool := true\n")
-    # close callback = removeConnection bound to this
+    # close callback: TcpServer::removeConnection bound to this (the server's raw pointer), or the static trampoline
+    # removeConnectionGuarded bound to (weak life token, this, loop_)
     scc = _calls(body_of(nc), ("setCloseCallback",))
     if len(scc) != 1:
         raise ExtractError("newConnection: expected one setCloseCallback")
-    bound, held = _bind_of(scc[0])
-    if bound != "removeConnection" or "this" not in held:
-        raise ExtractError("newConnection: the close callback is not TcpServer::removeConnection bound to this")
+    close_fn, close_held = _bind_of(scc[0])
+    if close_fn == "removeConnection":
+        if close_held != ["this", "placeholder"]:
+            raise ExtractError("newConnection: removeConnection is not bound to (this, _1)")
+    elif close_fn == "removeConnectionGuarded":
+        if close_held != ["token", "this", "loop_", "placeholder"]:
+            raise ExtractError("newConnection: removeConnectionGuarded is not bound to (weak_ptr<void>(alive_), this, loop_, _1)")
+        tok = kids([n for n in walk(scc[0]) if n.get("kind") == "CallExpr" and kids(n) and strip(kids(n)[0]).get("kind") == "DeclRefExpr"
+                    and strip(kids(n)[0])["referencedDecl"]["name"] == "bind"][0])[2]
+        if not mentions(tok, "alive_"):
+            raise ExtractError("newConnection: the life token is not made from alive_")
+    else:
+        raise ExtractError("newConnection: the close callback is %s" % close_fn)
     i_est = _index_of(st, lambda s: bool(_calls(s, ("runInLoop", "queueInLoop"))), "newConnection: the hand-off of connectEstablished")
     if not (i_ins < i_est):
         raise ExtractError("newConnection: connectEstablished is handed over before the map insert")
@@ -279,18 +296,60 @@ def generate():
     emit_handoff("establish", "`newConnection`: `connectEstablished` is handed to the %s loop through `%sInLoop`; the functor holds the TcpConnectionPtr"
                  % ("connection's" if target == "conn" else "acceptor", kind), kind, target, "strong")
 
-    # ------------------------------------------------------------------ removeConnection
-    rc = the_function(docs, "removeConnection")
-    call, kind, target, held = _handoff(rc, body_of(rc), "removeConnection", "removeConnectionInLoop")
-    if target == "next":
-        raise ExtractError("removeConnection: hand-off to getNextLoop()")
-    if len(_top(rc)) != 1:
-        raise ExtractError("removeConnection: more than the one hand-off statement")
-    if "strong" not in held or "this" not in held:
-        raise ExtractError("removeConnection: the functor does not hold (this, conn)")
-    emit_handoff("remove", "`removeConnection` (the close callback, called on the connection's loop): `removeConnectionInLoop` is handed to the "
-                 "%s loop through `%sInLoop`; the functor holds the TcpConnectionPtr" % ("acceptor" if target == "base" else "connection's", kind),
-                 kind, target, "strong", server_raw=True)
+    # ------------------------------------------------------------------ the close callback's hop to the base loop
+    if close_fn == "removeConnection":
+        rc = the_function(docs, "removeConnection")
+        call, kind, target, held = _handoff(rc, body_of(rc), "removeConnection", "removeConnectionInLoop")
+        if target == "next":
+            raise ExtractError("removeConnection: hand-off to getNextLoop()")
+        if len(_top(rc)) != 1:
+            raise ExtractError("removeConnection: more than the one hand-off statement")
+        if held != ["this", "strong"]:
+            raise ExtractError("removeConnection: the functor does not hold (this, conn)")
+        guarded, via = False, "removeConnection"
+    else:
+        rg = the_function(docs, "removeConnectionGuarded")
+        if len(_top(rg)) != 1:
+            raise ExtractError("removeConnectionGuarded: more than the one hand-off statement")
+        calls = _calls(body_of(rg), ("runInLoop", "queueInLoop"))
+        if len(calls) != 1:
+            raise ExtractError("removeConnectionGuarded: expected exactly one hand-off")
+        callee = strip(kids(calls[0])[0])
+        kind = "run" if callee["name"] == "runInLoop" else "queue"
+        params = [k["name"] for k in kids(rg) if k["kind"] == "ParmVarDecl"]
+        tv = strip(kids(callee)[0])
+        if not (tv.get("kind") == "DeclRefExpr" and tv["referencedDecl"]["name"] in params):
+            raise ExtractError("removeConnectionGuarded: the target loop is not a parameter")
+        # the parameter is bound in newConnection: position -> bound argument
+        bound_to = close_held[params.index(tv["referencedDecl"]["name"])]
+        if bound_to != "loop_":
+            raise ExtractError("removeConnectionGuarded: the target loop parameter is bound to %s" % bound_to)
+        target = "base"
+        bound, held = _bind_of(calls[0])
+        if bound != "removeConnectionIfAlive" or held != ["token", "serverptr", "strong"]:
+            raise ExtractError("removeConnectionGuarded: the functor is not removeConnectionIfAlive(alive, server, conn)")
+        if any(x.get("kind") == "MemberExpr" and strip(kids(x)[0]).get("referencedDecl", {}).get("name") == "server" for x in walk(body_of(rg)) if kids(x)):
+            raise ExtractError("removeConnectionGuarded: uses the server object")
+        ria = the_function(docs, "removeConnectionIfAlive")
+        st2 = _top(ria)
+        if len(st2) != 1 or st2[0].get("kind") != "IfStmt" or len(kids(st2[0])) != 2:
+            raise ExtractError("removeConnectionIfAlive: expected a single `if` without else")
+        cond = strip(kids(st2[0])[0])
+        okc = cond.get("kind") == "UnaryOperator" and cond.get("opcode") == "!" and mentions(cond, "expired") and mentions(cond, "alive")
+        then = [x for x in kids(kids(st2[0])[1])] if kids(st2[0])[1].get("kind") == "CompoundStmt" else [kids(st2[0])[1]]
+        okt = len(then) == 1 and strip(then[0]).get("kind") == "CXXMemberCallExpr" and strip(kids(strip(then[0]))[0]).get("name") == "removeConnectionInLoop"
+        if not (okc and okt):
+            raise ExtractError("removeConnectionIfAlive: not `if (!alive.expired()) server->removeConnectionInLoop(conn);`")
+        uses = [x for x in walk(body_of(ria)) if x.get("kind") == "DeclRefExpr" and x.get("referencedDecl", {}).get("name") == "server"]
+        if len(uses) != 1:
+            raise ExtractError("removeConnectionIfAlive: the server pointer is used outside the guarded call")
+        guarded, via = True, "removeConnectionGuarded"
+    emit_handoff("remove", "the close callback `%s` (called on the connection's loop): `removeConnectionInLoop` is handed to the "
+                 "%s loop through `%sInLoop`; the functor holds the TcpConnectionPtr" % (via, "acceptor" if target == "base" else "connection's", kind),
+                 kind, target, "strong", server_raw=not guarded)
+    out.append("/-- the functor calls `removeConnectionInLoop` only if a life token of the server has not expired\n"
+               "(`removeConnectionIfAlive`); without it the functor runs on the server object whatever happened to it -/\n"
+               "def removeGuarded : Bool := %s\n" % ("true" if guarded else "false"))
 
     # ------------------------------------------------------------------ removeConnectionInLoop
     ril = the_function(docs, "removeConnectionInLoop")
@@ -328,6 +387,13 @@ def generate():
     loops = [s for s in _top(dt) if s.get("kind") in ("CXXForRangeStmt", "ForStmt") and mentions(s, "connections_")]
     if len(loops) != 1:
         raise ExtractError("~TcpServer: expected one loop over connections_")
+    i_loop = [i for i, x in enumerate(_top(dt)) if x is loops[0]][0]
+    resets = [i for i, x in enumerate(_top(dt)) if strip(x).get("kind") == "CXXMemberCallExpr" and strip(kids(strip(x))[0]).get("name") == "reset"
+              and mentions(x, "alive_")]
+    if guarded and not (len(resets) == 1 and resets[0] < i_loop):
+        raise ExtractError("~TcpServer: the life token is not reset before the loop over connections_")
+    out.append("/-- `~TcpServer`: the life token expires before the connections are handed their `connectDestroyed` -/\n"
+               "def dtorExpiresToken : Bool := %s\n" % ("true" if resets and resets[0] < i_loop else "false"))
     body = kids(loops[0])[-1]
     if body.get("kind") != "CompoundStmt":
         raise ExtractError("~TcpServer: loop body is not a block")
